@@ -7,6 +7,10 @@
 #include <stdlib.h>
 #include <string.h>
 #include <stdarg.h>
+#include <signal.h>
+#include <sys/types.h>
+#include <sys/socket.h>
+#include <unistd.h>
 #include <security/pam_modules.h>
 #include <security/pam_ext.h>
 
@@ -48,7 +52,26 @@ int pam_prompt(pam_handle_t *pamh, int style, char **response, const char *fmt, 
   return PAM_SUCCESS;
 }
 
+/* short writes: with PAMDRV_SEND_CAP=n every send()/write() of the MODULE (linked with
+   -Wl,--wrap) hands at most n bytes to the kernel, as a full socket buffer would */
+ssize_t __real_send(int fd, const void *buf, size_t len, int flags);
+ssize_t __real_write(int fd, const void *buf, size_t len);
+static size_t capped(size_t len) {
+  const char *c = getenv("PAMDRV_SEND_CAP");
+  size_t n = c ? (size_t)atoi(c) : 0;
+  return (n > 0 && len > n) ? n : len;
+}
+ssize_t __wrap_send(int fd, const void *buf, size_t len, int flags) { return __real_send(fd, buf, capped(len), flags); }
+ssize_t __wrap_write(int fd, const void *buf, size_t len) { return __real_write(fd, buf, fd > 2 ? capped(len) : len); }
+
+static void on_usr1(int sig) { (void)sig; }
+
 int main(int argc, char **argv) {
+  /* the host application handles SIGUSR1 (no SA_RESTART): system calls of the module may be interrupted */
+  struct sigaction sa;
+  memset(&sa, 0, sizeof sa);
+  sa.sa_handler = on_usr1;
+  sigaction(SIGUSR1, &sa, NULL);
   if (argc < 5) { fprintf(stderr, "usage\n"); return 2; }
   struct pam_handle h; memset(&h, 0, sizeof h);
   h.user = unhex(argv[1]);
